@@ -17,7 +17,11 @@ from mc.catalog import members as MEM
 PROPERTY = "C03"
 LEVEL = "exploration"
 
-OPS = ["e", "r", "c", "s", "x", "S"]
+# classes whose constructor documents `reuse_gradient` as honoured but defaults to True although they have multi-valued members:
+# they are declared with reuse_gradient=False, the documented way to ask for an independent answer on every call
+EXPLICIT_NO_REUSE = {"NegativelyComonotoneOperator"}
+
+OPS = ["e", "r", "c", "m", "s", "x", "S"]
 
 
 def ops_for(cls):
@@ -44,21 +48,32 @@ class Decl(object):
         if cls == "BlockSmoothConvexFunction":
             self.part = p.declare_block_partition(d=len(par["L"]))
             kw["partition"] = self.part
+        if cls in EXPLICIT_NO_REUSE:
+            kw["reuse_gradient"] = False
         f = self.f = p.declare_function(models.get_class(cls), **kw)
         self.slots = []       # (leaf point, kind) kind in 'grid' | 'stat' | 'fixed' | 'vdisp' | 'ugrid'
+        self.calls = []       # (point, returned gradient, returned value) of every plain oracle call, in call order
         pts = []
         for op in hist:
             if op == "e":
-                x = Point(); self.slots.append((x, "grid")); f.oracle(x); pts.append(x)
+                x = Point(); self.slots.append((x, "grid")); self.calls.append((x,) + tuple(f.oracle(x))); pts.append(x)
             elif op == "r":
                 if not pts:
                     self.ok = False; return
-                f.oracle(pts[0])
+                self.calls.append((pts[0],) + tuple(f.oracle(pts[0])))
             elif op == "c":
                 if not pts:
                     self.ok = False; return
                 x = (pts[0] + pts[-1]) if len(pts) > 1 else 2 * pts[0]
-                f.oracle(x); pts.append(x)
+                self.calls.append((x,) + tuple(f.oracle(x))); pts.append(x)
+            elif op == "m":
+                # two different points with the same leaf support and permuted coefficients, built in opposite orders
+                a, b = Point(), Point()
+                self.slots.append((a, "grid")); self.slots.append((b, "grid"))
+                x = 0.25 * a + 0.75 * b
+                y = 0.25 * b + 0.75 * a
+                self.calls.append((x,) + tuple(f.oracle(x))); self.calls.append((y,) + tuple(f.oracle(y)))
+                pts.append(x); pts.append(y)
             elif op == "s":
                 x = f.stationary_point(); self.slots.append((x, "stat")); pts.append(x)
             elif op == "S":
@@ -108,6 +123,8 @@ def judge(cls, par, member, hist, stats, pre_par=None):
         k = M.shape[0]
         lmis.append(np.array([[R.functional_vec(M[i, j], nP, nF) for j in range(k)] for i in range(k)]) if k else None)
     iu = np.triu_indices(nP)
+    call_fvecs = [R.functional_vec(cf, nP, nF) for (_, _, cf) in d.calls]
+    allP = set(range(nP))
     # choices for the slots
     choice_sets = []
     for leaf, kind in d.slots:
@@ -228,11 +245,34 @@ def judge(cls, par, member, hist, stats, pre_par=None):
                     return
                 yield from resolve(idx + 1, P, assigned_now, F, fset)
 
+        seen_tuples = set()
         for P, F in resolve(0, P0, assigned, np.zeros(nF), frozenset()):
             stats["assignments"] = stats.get("assignments", 0) + 1
             G = P.T @ P
-            # functional_vec stores monomial coefficients: value = sum_{i<=j} c_ij <p_i,p_j> + sum c_k F_k + c_0
+            # what every oracle call RETURNED must be an oracle answer of the member at the point it was called on
+            tup = []
             mono = np.concatenate([G[iu], F, [1.0]])
+            for (cx, cg, cf), fvec in zip(d.calls, call_fvecs):
+                xv, gv = evalpt(cx, P, allP), evalpt(cg, P, allP)
+                xin, gin = xv[:n], (gv[:n] if same_space else gv[n:n + m_out])
+                imgs = member.grads(xin)
+                if not any(np.abs(gin - im).max(initial=0.0) <= 1e-9 for im in imgs):
+                    probs.append(("member-excluded:oracle-answer:%s" % cls,
+                                  "an oracle call at %s returned the (sub)gradient %s, which real member %s (%s) does not have there (it has %s); "
+                                  "declaration %s" % (np.round(xin, 4).tolist(), np.round(gin, 4).tolist(), member.name, par,
+                                                      [np.round(i_, 4).tolist() for i_ in imgs], "".join(hist))))
+                    break
+                fval = float(fvec @ mono)
+                if abs(fval - member.value(xin)) > 1e-8 * max(1.0, abs(fval)):
+                    probs.append(("member-excluded:oracle-value:%s" % cls,
+                                  "an oracle call at %s returned the value %.6g, real member %s (%s) has %.6g there; declaration %s"
+                                  % (np.round(xin, 4).tolist(), fval, member.name, par, member.value(xin), "".join(hist))))
+                    break
+                tup.append(tuple(np.round(gin, 7).tolist()))
+            if probs:
+                return probs
+            seen_tuples.add(tuple(tup))
+            # functional_vec stores monomial coefficients: value = sum_{i<=j} c_ij <p_i,p_j> + sum c_k F_k + c_0
             if len(cons):
                 vals = V @ mono
                 scale = max(1.0, float(np.abs(mono).max()))
@@ -254,6 +294,19 @@ def judge(cls, par, member, hist, stats, pre_par=None):
                 return probs
         if bad_decl:
             stats["inconsistent-declaration"] = stats.get("inconsistent-declaration", 0) + 1
+        elif d.calls and seen_tuples:
+            # every call is answered independently by the member's oracle: every tuple of answers must be representable
+            expected = 1
+            for (cx, cg, cf) in d.calls:
+                xin = evalpt(cx, P0, assigned)[:n]
+                expected *= len({tuple(np.round(np.asarray(i_, dtype=float), 7).tolist()) for i_ in member.grads(xin)})
+            if len(seen_tuples) < expected:
+                probs.append(("member-excluded:answers-not-independent:%s" % cls,
+                              "declaration %s on real member %s (%s) with points %s: the member's oracle has %d tuples of answers to the %d "
+                              "calls, the declared objects can only take %d of them (two calls share one (sub)gradient object)"
+                              % ("".join(hist), member.name, par, [np.round(c_, 3).tolist() for c_ in combo], expected, len(d.calls),
+                                 len(seen_tuples))))
+                return probs
     return probs
 
 
@@ -306,6 +359,8 @@ def run_shard(shard, tier):
         ops = ops_for(cls)
         for depth in range(1, _depth(tier) + 1):
             for hist in itertools.product(ops, repeat=depth):
+                if hist.count("m") > 1:
+                    continue         # one mirrored pair per history (each brings two more free grid points)
                 others = [q for q in MEM.all_claims(cls) if not MEM._same_par(q, par) and set(q) == set(par)
                           and not any(isinstance(v_, list) for v_ in q.values())]
                 variants = [None] + (others[:1] if depth <= 2 and cls != "BlockSmoothConvexFunction" else [])
@@ -340,10 +395,12 @@ def meta(tier):
     return dict(
         rule="for each of the %d membership claims (class, parameters, real member) of the catalogue (each self-tested against "
              "the class definition on a fine grid; the self-test is itself tested on false claims): all declaration histories of "
-             "length <= %d over {e, r, c, s, S, x (+ t, T for LinearOperator, v for Nonexpansive)} through the public API x all "
+             "length <= %d over {e, r, c, m (mirrored pair, at most once), s, S, x (+ t, T for LinearOperator, v for Nonexpansive)} through the public API x all "
              "assignments of grid points (5 in R, 9 in R^2; stationary / fixed points from the member's own lists) x all listed "
              "subgradient selections (and, for histories <= 2, the same after the object was first declared with other parameters, its "
-             "constraints generated, and its parameters then changed); every generated scalar constraint and class LMI is evaluated on the concrete samples. "
+             "constraints generated, and its parameters then changed); every generated scalar constraint and class LMI is evaluated on the concrete samples, "
+             "every (sub)gradient / value an oracle call RETURNED must be an answer of the member at that point, and every tuple of independent "
+             "answers to the calls must be representable. "
              "evaluations = (claim, history) pairs; distinct_nontrivial = concrete assignments evaluated." % (len(claim_list()), _depth(tier)),
         bounds=dict(depth=_depth(tier), members=len(MEM.ALL), claims=len(claim_list())),
         exhaustive=True,
